@@ -29,6 +29,7 @@ func checkC12(w *World, r *Report) {
 	r.Explanation = "Decides the binding clauses of C12 that are visible in the shape of the code, for every macro signature, argument list and call form: (R12.1) exactly one function renders MacroNode.body, so direct, _self, import and from-import calls share one binding routine; (R12.2) on every path through one iteration over the parameters exactly one binding is made on the macro's context — args[i] with the iteration's own index under i < len(args), else the evaluated default if the parameter has one, else nil — so arguments bind positionally, defaults fill omissions and extra arguments are never read; (R12.3) the body and macro text render in a fresh context (assignments in the body cannot reach the caller); (R12.4) every caller passes arguments that are forwarded unchanged or evaluated from n.args in index order. (R12.5) import and from-import reach a successful return only through Engine.Load, so they always bind the macros of the library they name. Not decided: agreement of the two macro declaration parsers, the mini-interpreter for macro text (renderVariableString), values of default expressions."
 	r.Explanation += " Rules added in later rounds: (R12.6) the parser never evaluates; (R12.7) imports render the library; (R12.8) chain walks are not bounded by constants. (R12.2) default/null bindings only where no argument was supplied at the position. (R12.9) a macro node stores the declaration it was given."
 	r.Explanation += " Round 9: (R12.10) the macro table has four writers; (R12.11) qualified calls keep their qualifier."
+	r.Explanation += " Round 10: (R12.12) import binds its alias with SetVariable."
 	r.RuleText = "obligation = one render site of a macro body / one binding / one caller; non-trivial = all"
 	r.Trusted = []string{"field-of-origin classification (MacroNode.params/defaults/body)"}
 
